@@ -26,8 +26,11 @@ CLAIMED = {
                 technique='Lean 4 proof (mutual structural induction) + correspondence', ref='6 C01'),
     'C02': dict(text='Proved: C02_leaf_order (flatten leaves = documented order leavesOf, all trees/configs), C02_none_filter, C02_pred_refines, '
                      'C02_sort_perm / C02_sort_fallback, classification lemmas C02_kind_*, C02_pred_first, C02_sort_canonical (keys on which < is a '
-                     'strict total order sort to the same list from every insertion order) with C02_int_keys_canonical; for key sets outside '
-                     'that hypothesis (stage-2 / fallback orders) insertion-order irrelevance is covered by oracle + correspondence only.' + PARTIAL,
+                     'strict total order sort to the same list from every insertion order) with C02_int_keys_canonical; C02_dict_insertion_order_irrelevant (a dict node with '
+                     'pairwise distinct, strictly totally ordered keys: every insertion order gives identical leaves and a treespec node with the same sorted keys '
+                     'and the same children, differing only in the remembered insertion order that == ignores and unflatten restores); for key sets outside '
+                     'that hypothesis (stage-2 / fallback orders, keys tied under <) insertion-order irrelevance is covered by oracle + correspondence only; key types '
+                     'outside the model universe (bool / float / subclasses / partial orders): reference rule in the exotic oracle stream.' + PARTIAL,
                 technique='Lean 4 proof (refinement to a reference leaf order) + correspondence', ref='6 C02'),
     'C03': dict(text='Proved: C03_flatten_with_path_agrees (leaves, node array, namespace and error of flatten vs flatten_with_path for well-behaved '
                      'flatten functions), C03_iter_leaves (whenever flatten succeeds the lazy iterator yields exactly its leaves in order; agenda '
@@ -87,7 +90,9 @@ CLAIMED = {
                      'identity; Lemmas/EncTransform.lean), C08_rebuild_from_children / C08_rebuild_ordereddict / C08_rebuild_equal (treespec_tuple / list / '
                      'deque / ordereddict over children() rebuild the root: same node array, compatible namespace; Lemmas/EncConstruct.lean); '
                      'C08_normIndex_none/some (Python index semantics), C08_child_index_error, C08_entry_of_entries, C08_one_level, '
-                     'C08_compose_counts, C08_compose_rejects, C08_transform_none, C08_make_leaf_none, C08_repr_affixes. the sorting constructors (treespec_dict / defaultdict), the class constructors and '
+                     'C08_compose_counts, C08_compose_rejects, C08_transform_none, C08_make_leaf_none, C08_repr_affixes; C08_compose_is_structure (tree level: replacing every leaf of '
+                     'an a-shaped tree by b-shaped trees gives a tree whose treespec has exactly the node array of treespec(a).compose(treespec(b)), whose leaves are '
+                     'the leaves of the grafted trees in order, and num_leaves multiply; Lemmas/Graft.lean, structural induction with dict children re-sorted under the same keys). The sorting constructors (treespec_dict / defaultdict), the class constructors and '
                      'transform with node functions: correspondence (5000+ lines per run) + oracle.' + PARTIAL,
                 technique='Lean 4 proof + correspondence', ref='6 C08'),
     'C09': dict(text='Proved for all well-formed shapes whose payloads fit their kinds, any nesting and any dict key orders: C09_broadcast_refines - the merge walk '
